@@ -1213,6 +1213,7 @@ func runC03(c *core.Ctx) core.Meta {
 	checkBitSemantics(c, handlers)
 	checkClassCoverage(c, handlers)
 	checkPackedHalfSelection(c, handlers)
+	checkLaneIndexBounded(c, []string{emuPkg, cdna3Pkg})
 	checkImmediateArithmeticWide(c, "R03.44", []string{emuPkg, cdna3Pkg}, 6, "A branch handler that multiplies in int16 sends far branches to the wrong address")
 	checkLoadWidths(c, handlers)
 	checkWideMultiply(c, handlers)
